@@ -1,4 +1,5 @@
 import CorsVerif.Proofs.ACRH
+import CorsVerif.Proofs.BinarySearch
 import CorsVerif.Proofs.BrowserLists
 /-
   C14 — Requested-header lists: sound for any bytes, complete for browsers.
@@ -102,10 +103,34 @@ example : Headers.check (SortedSet.ofList [[98, 99], [97]]) [[98, 99, 44, 97]] =
 example : Headers.check (SortedSet.ofList [[97]]) [List.replicate 15 44] = true := by decide
 example : Headers.check (SortedSet.ofList [[97]]) [List.replicate 16 44] = false := by decide
 
+
+/-! ### `slices.BinarySearch` in `SortedSet.IndexAfter` -/
+
+theorem findIdx_eq_findPos (e : Bytes) (l : List Bytes) : SortedSet.findIdx e l = Ix.findPos e l := by
+  induction l with
+  | nil => rfl
+  | cons x xs ih => simp only [SortedSet.findIdx, Ix.findPos, ih]
+
+/-- **C14 (binary search).** `IndexAfter` searches `set.elems[start:]` with `slices.BinarySearch`; the model scans for the
+first occurrence.  For every well-formed set (strictly sorted: what `SortedSet.Add` maintains, `SortedSet.ofList_wf`) and
+every `start`, the library's halving loop returns the lower bound with the found flag the scan computes, and the
+model's `findIdx` is that position when found. -/
+theorem C14_binarySearch (set : SortedSet) (h : set.WF) (start : Nat) (e : Bytes) :
+    Ix.binarySearch Bytes.lt e (set.elems.drop start) = Ix.bsearch Bytes.lt e (set.elems.drop start) ∧
+    SortedSet.findIdx e (set.elems.drop start) =
+      cond (Ix.bsearch Bytes.lt e (set.elems.drop start)).2 (some (Ix.bsearch Bytes.lt e (set.elems.drop start)).1) none := by
+  have hs : (set.elems.drop start).Pairwise (fun a b => Bytes.lt a b = true) :=
+    List.Pairwise.sublist (List.drop_sublist start set.elems) h.sorted
+  refine ⟨Ix.binarySearch_sorted Bytes.lt e _ (fun a b c h1 h2 => Bytes.lt_trans h1 h2) hs, ?_⟩
+  rw [findIdx_eq_findPos]
+  exact Ix.findPos_sorted Bytes.lt e _ Bytes.lt_irrefl hs
+
 #print axioms C14
 #print axioms C14_sound
 #print axioms C14_browser
 #print axioms C14_browser_tolerated
 #print axioms C14_wf
+
+#print axioms C14_binarySearch
 
 end Cors
